@@ -130,7 +130,12 @@ StepTags(pre, post, ev, a, ok, o) ==
   (IF ev = "Undelegate" /\ ok
    THEN T(\A k \in NewRecKeys(pre, post) : NLe(post.recs[k].amt, a.x) /\ NGe(post.recs[k].amt, NSub(a.x, 1)), "C02_RoundTripOut") ELSE {}) \cup
   \* --- C03: acceptance ---
-  (IF ev = "Undelegate" /\ NIsPos(a.x) /\ NLe(a.x, Val(pre, a.s, a.a, a.o)) THEN T(ok, "C03_AcceptUndelegate") ELSE {}) \cup
+  \* "within the staker's current position": x <= sh*amt/tsh as exact rationals (the rounded query
+  \* value Val may exceed the exact value by less than one unit)
+  (IF ev = "Undelegate" /\ NIsPos(a.x) /\ pre.del[<<a.s, a.a, a.o>>].ex /\ pre.pool[<<a.o, a.a>>].ex
+      /\ NIsPos(pre.pool[<<a.o, a.a>>].tsh)
+      /\ NLe(NMul(a.x, pre.pool[<<a.o, a.a>>].tsh), NMul(pre.del[<<a.s, a.a, a.o>>].sh, pre.pool[<<a.o, a.a>>].amt))
+   THEN T(ok, "C03_AcceptUndelegate") ELSE {}) \cup
   (IF ev = "Withdraw" /\ KIND[a.a] # "nat" /\ a.a \in REGISTERED /\ NLe(a.x, pre.stk[<<a.s, a.a>>].wd) /\ ~NIsNeg(a.x)
    THEN T(ok, "C03_AcceptWithdraw") ELSE {}) \cup
   \* --- C03: exactly one record per accepted request, nothing overwritten ---
@@ -160,6 +165,9 @@ StepTags(pre, post, ev, a, ok, o) ==
              /\ (post.recs[k].complete # pre.recs[k].complete =>
                     HoldOf(pre, k) > 0 /\ pre.recs[k].complete <= pre.h /\ post.recs[k].complete = pre.h + 1),
           "C03_RecordLostOrChanged") \cup
+        \* C09 (block-end item isolation): an item that could not be processed leaves no partial effect
+        T((\E k \in DOMAIN pre.recs : due(k) /\ k \in DOMAIN post.recs) => PendingSums(post) \/ ~PendingSums(pre),
+          "C09_EndBlockItemPartial") \cup
         T(\A s \in STAKERS, x \in ASSETS :
              NEq(NSub(Liquid(post, s, x), Liquid(pre, s, x)),
                  SumF({k \in rel : pre.recs[k].s = s /\ pre.recs[k].a = x}, LAMBDA k : pre.recs[k].actual)),
